@@ -23,7 +23,7 @@
 (***************************************************************************)
 EXTENDS Integers, Sequences, FiniteSets, TLC, Json
 
-CONSTANTS Bulks, MaxCrash, Fixed
+CONSTANTS Bulks, MaxCrash, Fixed, SkipFsync
 
 VARIABLES docs, meta,            \* file contents (sequences of units)
           dsync, msync,          \* durable prefix lengths
@@ -46,19 +46,25 @@ Init == /\ docs = <<>> /\ meta = <<>> /\ dsync = 0 /\ msync = 0 /\ docsOff = 0 /
         /\ status = "Up" /\ crashes = 0 /\ fresh = {} /\ hist = <<>>
 
 \* ---- ActiveWriter.Write, FileWriter.Write
+\* SkipFsync = TRUE is the store option --skip-fsync (FileWriter.skipSync): a write returns without waiting for the
+\* file's sync loop.  Offsets, replay and NoForeignBytes / AlwaysComesUp do not depend on it; AckedDurable and
+\* AckOnlyDurable are given up by that option, and so is the crash behaviour altogether: a crash may keep a meta block
+\* whose docs bytes never reached the disk, a state Scan is not defined on (TLC reports it when MaxCrash > 0).  The mode
+\* exists for the trace specification: recorded executions of stores run with the option (the repository's tests, most
+\* workloads of the harness) must still be behaviours of the write path (mutex, offsets, order of the two writes).
 Begin(b) == /\ status = "Up" /\ wr = None /\ pc[b] = "new"
             /\ wr' = b /\ pc' = [pc EXCEPT ![b] = "docs"]
             /\ UNCHANGED <<docs, meta, dsync, msync, docsOff, metaOff, woff, acked, index, status, crashes, fresh, hist>>
 WriteDocs(b) == /\ status = "Up" /\ wr = b /\ pc[b] = "docs"
                 /\ docs' = WriteAt(docs, docsOff, <<DUnit(b, 1), DUnit(b, 2)>>)
-                /\ woff' = docsOff /\ docsOff' = docsOff + 2 /\ pc' = [pc EXCEPT ![b] = "docsSync"]
+                /\ woff' = docsOff /\ docsOff' = docsOff + 2 /\ pc' = [pc EXCEPT ![b] = IF SkipFsync THEN "meta" ELSE "docsSync"]
                 /\ UNCHANGED <<meta, dsync, msync, metaOff, wr, acked, index, status, crashes, fresh, hist>>
 SyncDocs(b) == /\ status = "Up" /\ wr = b /\ pc[b] = "docsSync"
                /\ dsync' = Len(docs) /\ pc' = [pc EXCEPT ![b] = "meta"]
                /\ UNCHANGED <<docs, meta, msync, docsOff, metaOff, wr, woff, acked, index, status, crashes, fresh, hist>>
 WriteMeta(b) == /\ status = "Up" /\ wr = b /\ pc[b] = "meta"
                 /\ meta' = WriteAt(meta, metaOff, <<MHead(b, woff), MBody(b)>>)
-                /\ metaOff' = metaOff + 2 /\ pc' = [pc EXCEPT ![b] = "metaSync"]
+                /\ metaOff' = metaOff + 2 /\ pc' = [pc EXCEPT ![b] = IF SkipFsync THEN "written" ELSE "metaSync"]
                 /\ UNCHANGED <<docs, dsync, msync, docsOff, wr, woff, acked, index, status, crashes, fresh, hist>>
 SyncMeta(b) == /\ status = "Up" /\ wr = b /\ pc[b] = "metaSync"
                /\ msync' = Len(meta) /\ pc' = [pc EXCEPT ![b] = "written"]
